@@ -383,7 +383,7 @@ MAX_INCLUDE_DEPTH = 16
 def include(state, included_file_path: str):
     include_path = devices.resolve_relative_path(included_file_path, state["filename"])
 
-    if state["compiler"].include_depth >= MAX_INCLUDE_DEPTH:
+    if state["include_depth"] >= MAX_INCLUDE_DEPTH:
         reports.critical(
             "recursive-include",
             (state["insn"].ctx_start, state["insn"].ctx_end, f"Files are included more than {MAX_INCLUDE_DEPTH} levels deep here.\nDoes '{include_path}' include itself, directly or through other files? Start it with '.once' if it is meant to be included only once.")
@@ -424,7 +424,7 @@ def include(state, included_file_path: str):
     from . import parser
     file_ast = parser.parse(include_path, code)
 
-    code = state["compiler"].compile_include(file_ast, state["emit_address"])
+    code = state["compiler"].compile_include(file_ast, state["emit_address"], state["include_depth"] + 1)
 
     return code
 
